@@ -21,6 +21,7 @@ macro_rules! explore_prop {
             const PART: &'static str = "scripted-bounded-exhaustive";
             const RULE: &'static str = $rule;
             const HANG_IS_VIOLATION: bool = $hang;
+            const WATCHDOG_S: u64 = 60;
             fn random_cases(_tier: Tier) -> usize {
                 0
             }
